@@ -809,6 +809,8 @@ func (it *interp) blockErr(e *gast.Expr, hashOff, at int, rule *gast.Rule) {
 		it.addErr(at, rule, "sentinel", "sentinel", false)
 	case 3:
 		it.addErr(at, rule, "E"+strconv.Itoa(e.Code.ID)+"\nsentinel", "joined", false)
+	case 4:
+		it.addErr(at, rule, "SE"+strconv.Itoa(e.Code.ID), "slice", false)
 	}
 }
 
